@@ -20,6 +20,14 @@ let hex (b : n list) =
   if b = [] then "-" else
   String.concat "" (List.map (fun x -> Printf.sprintf "%02x" (int_of_n x)) b)
 
+let z_of_int i = if i = 0 then Z0 else if i > 0 then Zpos (pos_of_int i) else Zneg (pos_of_int (-i))
+let int_of_z = function Z0 -> 0 | Zpos p -> int_of_pos p | Zneg p -> - (int_of_pos p)
+let str_of_bytes (b : n list) = String.concat "" (List.map (fun x -> String.make 1 (Char.chr (int_of_n x))) b)
+(* "123.4567" -> 1234567 (units of 1e-4) *)
+let ts_of_string s =
+  match String.split_on_char '.' s with
+  | [i; f] when String.length f = 4 -> n_of_int (int_of_string i * 10000 + int_of_string f)
+  | _ -> failwith "ts"
 let no_canon _ = None
 
 let run op args =
@@ -32,6 +40,14 @@ let run op args =
         Printf.sprintf "%s,%s,%s,%s,%s" (hex d.do_dir) (hex d.do_file)
           (hex d.base_dir) (hex d.base_name) (hex d.ext))
         (possible_do_files p))
+  | "mfmt", [k; p; t; x] ->
+      hex (format { kind = k; pid = z_of_int (int_of_string (str_of_bytes p));
+                    ts = ts_of_string (str_of_bytes t); text = x })
+  | "mparse", [l] ->
+      (match parse l with
+       | Some m -> let t = int_of_n m.ts in
+           Printf.sprintf "OK %s %d %d.%04d %s" (hex m.kind) (int_of_z m.pid) (t / 10000) (t mod 10000) (hex m.text)
+       | None -> "ERR")
   | _ -> "BADOP"
 
 let () =
